@@ -89,6 +89,8 @@ def drive(ctx, sess):
         nlat, nlon = r.randint(2, 4), r.randint(2, 4)
         lat = sorted(r.sample(range(-3, 6), nlat))
         lon = sorted(r.sample(range(-4, 7), nlon))
+        if g % 3 == 0:
+            lon = sorted(r.sample(range(1, 9), nlon))       # a grid entirely east of the prime meridian
         # (a) arbitrary cells: the standard deviation is usually irrational, expressions using it are then not judged
         pool = r.choice([[0, 2], [0, 0, 4], [1, 1, 3], [0, 2, 4, NA], [2, 2, 2], [0], [0, 4, NA], [-1, 1, 3, 5]])
         grid = [[r.choice(pool) for _ in lon] for _ in lat]
@@ -104,6 +106,32 @@ def drive(ctx, sess):
             x1, x2 = sorted([r.choice(lon) + r.choice([0, 0, -1]), r.choice(lon) + r.choice([0, 0, 1])])
             y1, y2 = sorted([r.choice(lat) + r.choice([0, 0, -1]), r.choice(lat) + r.choice([0, 0, 1])])
             one_run(creator, lat, lon, grid, [x1, y1, x2, y2], dates=same_dates or (seams[(g + b) % len(seams)] if b < 2 else None))
+        # (a') boxes that hold no data cell: between two grid lines, or a few degrees off the grid on one side (also west of
+        #      the prime meridian with the data to the east): the creator grows them by half a degree per side until they do
+        for b in range(ctx.pick(3, 8)):
+            gx, gy = r.choice(lon), r.choice(lat)
+            kind = r.choice(["west", "east", "south", "north", "between", "west0"])
+            d = r.choice([1, 2, 3])
+            if kind == "west0":
+                x2 = min(-1, min(lon) - 1)            # a box west of the prime meridian, the data to its east
+                box = [x2 - 1, gy, x2, gy]
+            elif kind == "west":
+                box = [min(lon) - d - 1, gy, min(lon) - d, gy]
+            elif kind == "east":
+                box = [max(lon) + d, gy, max(lon) + d + 1, gy]
+            elif kind == "south":
+                box = [gx, min(lat) - d - 1, gx, min(lat) - d]
+            elif kind == "north":
+                box = [gx, max(lat) + d, gx, max(lat) + d + 1]
+            else:
+                gaps = [(a, c) for a, c in zip(lon, lon[1:]) if c - a >= 2]
+                if not gaps:
+                    continue
+                a, c = r.choice(gaps)
+                box = [a + 1, gy, c - 1, gy] if c - a >= 3 else [a + 0.5, gy, a + 0.5, gy]
+                if box[0] != int(box[0]):
+                    continue
+            one_run(creator, lat, lon, grid, [int(v) for v in box], dates=same_dates)
         # (b) cells chosen for the box: half a, half a + 2k inside it (an odd cell is left without data), so that the
         #     population standard deviation is exactly k and every expression can be judged; outside cells are arbitrary
         for b in range(ctx.pick(4, 10)):
